@@ -27,6 +27,7 @@ sys.path.insert(0, HERE)
 import gen  # noqa: E402
 import compopt  # noqa: E402  (leg "compressor configuration and options block", coq/CompOpt)
 import wrap  # noqa: E402  (leg "wrap boundaries of count x element-size products", coq/C05/Wrap.v)
+import compleg  # noqa: E402  (leg "hostile COMPRESSED blocks for every compiled-in compressor": valid streams with forged inner fields)
 import huge  # noqa: E402  (leg "huge logical sizes in tiny images": files of 2^32 bytes and more made of sparse blocks)
 
 LEVEL = "proof"
@@ -509,6 +510,8 @@ def run(ctx):
         "ASan/UBSan (gcc), 10 s time-out, ASAN max_allocation_size_mb=2048 = alloc_limit of the model",
         "decompressor libraries: oracle with contract codec_ok (total, output fits the buffer); gzip bound to system zlib in "
         "the tie, other compressors are not compared (search oracle only)",
+        "props/C05/compleg.py (locator of the blocks of a real image, codec-aware field edits, hand-made LZMA-alone streams; "
+        "Python zlib / lzma, system liblz4 / libzstd via ctypes) + props/C10/sizeleg.py, errleg.py reused by path",
     ]
     ctx.assumptions += [
         "size_t is 64 bit; allocations above 2 GiB fail (model: alloc_limit; implementation run with the same limit)",
@@ -588,6 +591,14 @@ def run(ctx):
     viol += v
     stats_all.append(st)
     nhuge = st["images"]
+    # valid streams of every compiled-in compressor with forged inner size fields / another expansion than the container
+    # expects / an early end, as metadata, fragment and data blocks (props/C05/compleg.py); sanitizer oracle only
+    tc = time.time()
+    v, st, csum = compleg.run_leg(ctx, e, random.Random(ctx.seed * 32452843 + 23), evaluate, run_proc,
+                                  set(int(x) for x in e.avail.split(",")))
+    viol += v
+    stats_all.append(st)
+    ctx.log("compressed-block leg: %s, %d executions, %d problems so far (%.1fs)" % (csum, st["runs"], len(viol), time.time() - tc))
     by_p = {}
     for nm, img, p in real_cases:
         by_p.setdefault(p, []).append((nm, img))
@@ -666,14 +677,25 @@ def run(ctx):
         "stored first / last block; variants differing in the last / first byte; 128 KiB blocks with the exact model tie; giants "
         "2^48, 2^63-1, 2^64-1 with a short block list): sqfsdiff img img and against the variants / a size 2^32 larger, "
         "rdsquashfs -c and sqfs2tar to /dev/null and into a pipe closed after 1 MiB, rdsquashfs -l/-d/-s/-x, -u under a 32 MiB "
-        "file size limit, three harness modes; time-out 10 s + 5 s per started 4 GiB = hang." % nhuge)
-    ctx.coverage["distribution"] = dict(images=len(cases) + len(real_cases) + nwrap + nhuge + 1, wrap_boundary_images=nwrap,
-                                        huge_size_images=nhuge,
+        "file size limit, three harness modes; time-out 10 s + 5 s per started 4 GiB = hang." % nhuge +
+        "  Compressed-block leg (props/C05/compleg.py): for %s: a gensquashfs image (4 KiB blocks, xattrs, export table) whose "
+        "compressed inode / directory / fragment-table / id / export / xattr blocks, data and fragment blocks get same-length "
+        "edits of the codec's inner fields (lzma size / dictionary / props, zstd frame content size / window / descriptor / "
+        "block header, zlib CINFO / FDICT / block type / Adler-32, xz check id / dictionary / index size with CRCs fixed, lz4 "
+        "token / offset), valid replacement streams that expand to 0 .. 1 MiB (lzma: also with the size field forged) and "
+        "truncated streams -- %d mutants, %d evaluated (every one whose inner size field exceeds the container, a sample of the "
+        "rest); plus %d Builder images with hand-made streams as data / fragment blocks (props/C10/sizeleg.py, errleg.py, "
+        "extended to lzma), each scenario file also read by rdsquashfs -c in a process of its own.  Sanitizer / signal / "
+        "time-out oracle only: these images are not compared with the model." % (
+            "/".join(csum["codecs"]), csum["real_mutants"], csum["real_mutants_run"], csum["builder_images"]))
+    ctx.coverage["distribution"] = dict(images=len(cases) + len(real_cases) + nwrap + nhuge + csum.get("images", 0) + 1, wrap_boundary_images=nwrap,
+                                        huge_size_images=nhuge, compressed_block_images=csum.get("images", 0),
                                         transcripts_compared=tot["compared"],
                                         transcripts_equal=tot["agree"], not_comparable_other_codec=tot["unk"],
                                         images_with_full_tree=tot["tree_ok"], tool_runs=tot["tool_runs"],
                                         tool_verdicts_checked=tot["verdict_checked"], meta_sequences=nmeta,
                                         error_classes_reached=len(errc), nest_depth_tested=NEST_TESTED)
+    ctx.coverage["compressed_block_leg"] = csum
     ctx.coverage["huge_size_leg"] = dict(images=nhuge, exit_codes=[st for st in stats_all if "exit_codes" in st][0]["exit_codes"])
     ctx.coverage["error_classes"] = dict(sorted(errc.items())[:60])
     ctx.add_samples([dict(image=cases[i][0], bytes=len(cases[i][1])) for i in (1, len(cases) // 2, len(cases) - 1)])
